@@ -169,9 +169,13 @@ func (s *Storer) DelRunId(id string) error {
 func (s *Storer) resetDataSet() {
 	s.logger.Debugf("Storer reset dataset : %s", s.dir)
 
+	// swap the data set first and close the old one without holding dataSetMux:
+	// a polling AofRotateReader calls lastSeg() -> getDataSet() while it holds its own
+	// mutex, and Close() needs that mutex (lock order inversion -> dead-lock)
 	s.dataSetMux.Lock()
-	defer s.dataSetMux.Unlock()
 	ra := s.dataSet
+	s.dataSet = newDataSet(nil, nil)
+	s.dataSetMux.Unlock()
 	if ra != nil {
 		ra.Close()
 	}
@@ -190,8 +194,6 @@ func (s *Storer) resetDataSet() {
 		}
 		return nil
 	})
-
-	s.dataSet = newDataSet(nil, nil)
 }
 
 func (s *Storer) Close() error {
